@@ -1,12 +1,14 @@
 (* C11/ProofsSd.v — stake distribution: the leaf `pool id ++ decimal stake`.
    Injective for identifiers that do not end in a digit, and for identifiers of one fixed length
    (bech32 pool ids: 56 characters); NOT injective in general (Refuted.v).  Root level: the
-   Merkle-mountain-range root determines the leaf list — proved here for lists of at most 12
-   leaves (bound in the statements; C09 has no unbounded root-injectivity theorem), plus the
-   unbounded half that comes from C09: whatever sits under the root is a committed leaf. *)
+   Merkle-mountain-range root TERM determines the leaf list for any number of leaves below 2^63
+   (C09/MmrInj.v: mmr_root_inj), plus the soundness half that comes from C09: whatever sits
+   under the root is a committed leaf.  These root-level statements are about the ideal,
+   pair-injective merge; at byte level raw sibling leaves are committed through their
+   concatenation only (ProofsRaw.v: sd_root_sound_b, Refuted.v: C11_refuted_sd_boundary). *)
 From Coq Require Import Lia.
 From MV Require Import Base.Prelude Base.SymHash.
-From MV Require Import C09.Model C09.MmrProofs C11.Model C11.Proofs.
+From MV Require Import C09.Model C09.MmrProofs C09.MmrInj C11.Model C11.Proofs.
 Open Scope N_scope.
 
 Definition ends_nondigit (id : bytes) : Prop :=
@@ -80,24 +82,24 @@ Proof.
   apply in_map_iff in Hin. destruct Hin as [y [E Hy]]. injection E as <-. exact Hy.
 Qed.
 
-Ltac enum l H := destruct l as [|? l]; [ | simpl in H; first [ lia | enum l H ] ].
+(* the root determines the leaf list, any number of leaves (C09_mmr_root_inj) *)
+Definition fits (d : sdist) : Prop := N.of_nat (length d) < 2 ^ 63.
 
-(* the root determines the leaf list, for at most 12 leaves *)
-Lemma root_inj_12 : forall xs ys : list bytes, (length xs <= 12)%nat -> (length ys <= 12)%nat ->
-  mmr_root (map BLit xs) = mmr_root (map BLit ys) -> mmr_root (map BLit xs) <> None -> xs = ys.
+Lemma map_BLit_inj (xs ys : list bytes) : map BLit xs = map BLit ys -> xs = ys.
 Proof.
-  intros xs ys Hx Hy H Hn.
-  enum xs Hx; enum ys Hy; clear Hx Hy;
-    vm_compute in H; try (exfalso; apply Hn; reflexivity); clear Hn; congruence.
+  revert ys. induction xs as [|x xs IH]; intros [|y ys] H; try discriminate H; [reflexivity|].
+  simpl in H. injection H as -> H. f_equal. apply IH. exact H.
 Qed.
 
-Definition BOUND : nat := 12.
-
-Lemma sd_root_leaves a b : (length a <= BOUND)%nat -> (length b <= BOUND)%nat ->
+Lemma sd_root_leaves a b : fits a -> fits b ->
   sd_root a = sd_root b -> sd_root a <> None -> map sd_leaf a = map sd_leaf b.
 Proof.
-  unfold sd_root. rewrite !sd_leaves_map. intros Ha Hb H Hn.
-  apply root_inj_12; try assumption; rewrite map_length; assumption.
+  unfold sd_root, fits. rewrite !sd_leaves_map. intros Ha Hb H Hn.
+  apply map_BLit_inj. apply mmr_root_inj; try assumption.
+  - intros l Hl. apply in_map_iff in Hl. destruct Hl as [y [<- _]]. apply atom_BLit.
+  - intros l Hl. apply in_map_iff in Hl. destruct Hl as [y [<- _]]. apply atom_BLit.
+  - rewrite !map_length. exact Ha.
+  - rewrite !map_length. exact Hb.
 Qed.
 
 (* the known class: same leaf lists, different mappings *)
@@ -106,18 +108,18 @@ Definition Known_digit_move (a b : sdist) : Prop := map sd_leaf a = map sd_leaf 
 Lemma sdist_eq_dec (a b : sdist) : {a = b} + {a <> b}.
 Proof. repeat decide equality. Qed.
 
-Theorem sd_holds_outside a b : (length a <= BOUND)%nat -> (length b <= BOUND)%nat ->
+Theorem sd_holds_outside a b : fits a -> fits b ->
   sd_root a = sd_root b -> sd_root a <> None -> ~ Known_digit_move a b -> a = b.
 Proof.
   intros Ha Hb H Hn Hk. destruct (sdist_eq_dec a b) as [E|E]; [exact E|].
   exfalso. apply Hk. split; [apply sd_root_leaves; assumption | exact E].
 Qed.
 
-Theorem sd_nodigit a b : (length a <= BOUND)%nat -> (length b <= BOUND)%nat ->
+Theorem sd_nodigit a b : fits a -> fits b ->
   ids_nodigit a -> ids_nodigit b -> sd_root a = sd_root b -> sd_root a <> None -> a = b.
 Proof. intros Ha Hb Wa Wb H Hn. apply leaves_inj_nodigit; try assumption. apply sd_root_leaves; assumption. Qed.
 
-Theorem sd_len L a b : (length a <= BOUND)%nat -> (length b <= BOUND)%nat ->
+Theorem sd_len L a b : fits a -> fits b ->
   ids_len L a -> ids_len L b -> sd_root a = sd_root b -> sd_root a <> None -> a = b.
 Proof. intros Ha Hb Wa Wb H Hn. apply (leaves_inj_len L); try assumption. apply sd_root_leaves; assumption. Qed.
 
@@ -130,9 +132,9 @@ Qed.
 
 Theorem sd_match certpm d e m root se : pm_wf certpm ->
   fill_sd certpm d e = Ok m -> match_message (pm_hash (signed_sd root se)) m = true ->
-  sd_root d = Some root /\ e = se.
+  sd_root_b d = Some root /\ e = se.
 Proof.
-  intros Wc Hf Hm. unfold fill_sd in Hf. destruct (sd_root d) as [r|] eqn:Er; [|discriminate].
+  intros Wc Hf Hm. unfold fill_sd in Hf. destruct (sd_root_b d) as [r|] eqn:Er; [|discriminate].
   injection Hf as <-. apply match_eq in Hm.
   apply C04.PMInj.pm_hash_injective in Hm; [| |apply signed_sd_wf].
   - assert (H1 := f_equal (fun x => pm_get x K_SD_ROOT) Hm). assert (H2 := f_equal (fun x => pm_get x K_SD_EPOCH) Hm).
